@@ -271,6 +271,26 @@ def work(item, tier, seed):
                 res.case(sig0, lr, n_it, api)
                 if not res.samples:
                     res.add_sample(dict(det, api=api, history=hist.tolist()))
+                # the same run without the history: same draws (same key), so the same final iterate
+                try:
+                    if api == "elbo_vi":
+                        f2 = lambda p: elbo_vi(target, fam, p, cons, (), learning_rate=lr, n_iterations=n_it, track_history=False)
+                    else:
+                        f2 = lambda p: optimize_vi(elbo, p, learning_rate=lr, n_iterations=n_it, track_history=False)
+                    out2, evs2 = env.run_recorded(gseed(f2), key, init, mode="monitor")
+                    res.evaluations += 1
+                    res.transitions += 1
+                except Exception as ex:
+                    handler_stack.clear()
+                    res.violate(PROP, f"vi-raises:{sig0}:{api}:no-history", error=f"{type(ex).__name__}: {str(ex)[:300]}", **det)
+                    continue
+                same_draws = len(evs2) == len(evs) and all(H.bits_equal(np.asarray(a.value), np.asarray(b.value)) for a, b in zip(evs, evs2))
+                if not same_draws:
+                    res.notes["no_history_run_drew_differently"] = res.notes.get("no_history_run_drew_differently", 0) + 1
+                elif not H.close(np.asarray(out2.final_params), hist[-1], rtol=2e-6, atol=2e-7):
+                    res.violate(PROP, f"final-params-without-history:{sig0}:{api}", final_without_history=np.asarray(out2.final_params), final_with_history=hist[-1], initial=np.asarray(init), **det)
+                res.states += 1
+                res.validated += 1
     return res
 
 
